@@ -92,10 +92,12 @@ def check(ctx):
     for step in ("empty-guard", "split-on", "head", "tail"):
         ok = s1[step] == s2[step] and s1[step] not in (None, False)
         ctx.ob("SIB.split." + step, ftb if step != "tail" else (e1 or ftb), f"step `{step}` agrees between file_to_blocks and decode", ok, f"file_to_blocks: {s1[step]} | decode: {s2[step]}")
-    want_tail = "parts[-1:] if not text.endswith(DELIM) else []"
+    # the text ends with a delimiter exactly when the last part is EMPTY; text.endswith(delimiter) is not the
+    # same thing for a self-overlapping delimiter ('xaaa'.split('aa') == ['x', 'a'] although it ends with 'aa')
+    want_tail = "parts[-1:] if parts[-1] else []"
     for nm, f, s in (("file_to_blocks", ftb, s1), ("decode", dec, s2)):
         ok = s["tail"] == want_tail and s["head"] == "[X + DELIM for X in parts[:-1]]"
-        ctx.ob("SIB.split.no-empty-tail", f, f"{nm}: lines = [p + d for p in parts[:-1]] + (parts[-1:] unless the text ends with d)", ok, "" if ok else f"emits head={s['head']} tail={s['tail']}: a text ending with the delimiter yields an empty trailing element (or loses a line)")
+        ctx.ob("SIB.split.no-empty-tail", f, f"{nm}: lines = [p + d for p in parts[:-1]] + (parts[-1:] unless that last part is empty)", ok, "" if ok else f"emits head={s['head']} tail={s['tail']}: a text ending with the delimiter yields an empty trailing element, or (endswith test) a non-empty last part that overlaps the delimiter is lost")
     # the delimiter branch of file_to_blocks reads the whole text; the other iterates the file
     ok = bool(find("text = f.read()", ftb)) and any(isinstance(n, ast.For) and unparse(n.iter) == "f" for n in walk_no_nested(ftb))
     ctx.ob("SIB.split.file-branches", ftb, "custom delimiter: split the whole text; otherwise iterate the file's own lines", ok)
@@ -215,11 +217,20 @@ def check(ctx):
     ctx.ob("ABS.files-partition.concat", rt, "a group's lines are the concatenation of its files' lines in order", ok)
     excl = [n for n in walk_no_nested(rt) if isinstance(n, ast.If) and unparse(n.test) == "blocksize is not None and files_per_partition is not None" and any(isinstance(b, ast.Raise) for b in n.body)]
     ctx.ob("ABS.files-partition.exclusive", rt, "blocksize and files_per_partition are mutually exclusive (raise)", bool(excl))
+    # ---------------- block boundaries are found by a context-free search (fsspec.utils.read_block): exact only for delimiters that cannot overlap themselves
+    rb_calls = [c for c in calls(rbf, "read_block")]
+    imp = by.imports.get("read_block")
+    if len(rb_calls) == 1 and imp == "fsspec.utils.read_block" and unparse(rb_calls[0]) == "read_block(f, off, bs, delimiter)":
+        guards = [n for n in ast.walk(rb) if isinstance(n, ast.Raise) and any("delimiter" in unparse(t.test) and "overlap" in unparse(t.test) for t in [p for p in [getattr(n, "_parent", None)] if isinstance(p, ast.If)])]
+        ctx.ob("ALG.boundary.context-free", rbf, "read_block(f, off, bs, delimiter): the boundary is the next occurrence of the delimiter after an arbitrary offset", bool(guards), "" if guards else "for a self-overlapping delimiter the occurrence found from an arbitrary offset need not be one that a left-to-right split uses: read_text returns different lines for different block sizes")
+    else:
+        ctx.ob("ALG.boundary.context-free", rbf, "read_block_from_file delegates to fsspec.utils.read_block(f, off, bs, delimiter)", None, "the boundary search changed: re-review how boundaries are found for self-overlapping delimiters")
 
 
 VARIANTS = [
-    (TX, "                + (parts[-1:] if not text.endswith(delimiter) else [])\n", "                + parts[-1:]\n", "SIB.split"),
-    (TX, "        out = [t + line_delimiter for t in parts[:-1]] + (\n            parts[-1:] if not text.endswith(line_delimiter) else []\n        )", "        out = [t + line_delimiter for t in parts[:-1]] + parts[-1:]", "SIB.split"),
+    (TX, "                + (parts[-1:] if parts[-1] else [])\n", "                + parts[-1:]\n", "SIB.split"),
+    (TX, "                + (parts[-1:] if parts[-1] else [])\n", "                + (parts[-1:] if not text.endswith(delimiter) else [])\n", "SIB.split.no-empty-tail"),
+    (TX, "        out = [t + line_delimiter for t in parts[:-1]] + (\n            parts[-1:] if parts[-1] else []\n        )", "        out = [t + line_delimiter for t in parts[:-1]] + parts[-1:]", "SIB.split"),
     (TX, "        out = [t + line_delimiter for t in parts[:-1]] + (", "        out = [t for t in parts[:-1]] + (", "SIB.split.head"),
     (TX, '    if line_delimiter in [None, "", "\\n", "\\r", "\\r\\n"]:', '    if line_delimiter in [None, "", "\\n", "\\r\\n"]:', "TAB.newlines"),
     (BY, "                    length.append(off[-1] - off[-2])", "                    length.append(int(blocksize1))", "ABS.tiling.step"),
